@@ -10,8 +10,9 @@ Transcribed by hand from
   * oxidize-pdf-core/src/operations/reorder.rs        `reorder`, `reverse_pdf_pages`, `move_pdf_page`, `swap_pdf_pages`
   * oxidize-pdf-core/src/operations/rotate.rs         `RotationAngle::{from_degrees,to_degrees}`, `PageRotator::rotate`,
                                                       `create_rotated_page`, `create_page_copy`
-  * oxidize-pdf-core/src/page.rs                      `Page::from_parsed_with_content` (geometry, rotation, content,
-                                                      resource categories), `Page::set_rotation`, `Page::to_dict`
+  * oxidize-pdf-core/src/page.rs                      `Page::from_parsed_with_content` (geometry incl. the MediaBox
+                                                      origin and the CropBox, rotation, content, resource
+                                                      categories), `Page::set_rotation`, `Page::to_dict`
   * writer/pdf_writer/mod.rs `write_page`: /Font with the standard-14 fonts is always present, preserved
     resource categories are merged in.
 Pages are records; a content stream is an opaque text (hex of its decoded bytes).
@@ -72,14 +73,29 @@ def joinStreams : List String → String
   | [] => ""
   | s :: r => s ++ "0a" ++ joinStreams r
 
-/-- `Page::from_parsed_with_content` followed by `Document::save`: only width and height of the
-MediaBox survive (page.rs: `width = media_box[2] - media_box[0]`, `Page::new(width, height)`,
-`to_dict` writes `[0 0 width height]`), no CropBox is written, /Rotate is carried over verbatim,
-content streams are concatenated (each + `\n`), resource categories are merged into the
-writer's own `/Font` dictionary. -/
-def copyPage (s : Src) : Out :=
+/-- `Page::from_parsed_with_content` followed by `Document::save` BEFORE the repairs of C16-F1 /
+C16-F2: only width and height of the MediaBox survived (`Page::new(width, height)`, `to_dict`
+wrote `[0 0 width height]`) and no CropBox was written.  Kept for the regression witnesses. -/
+def copyPageOld (s : Src) : Out :=
   { mediaBox := [0, 0, boxAt s.mediaBox 2 - boxAt s.mediaBox 0, boxAt s.mediaBox 3 - boxAt s.mediaBox 1],
     cropBox := none,
+    rotation := s.rotation,
+    res := sortKeys ("Font" :: (s.res.getD [])),
+    content := joinStreams s.streams }
+
+/-- `Page::from_parsed_with_content` followed by `Document::save`: page.rs keeps
+`width = media_box[2] - media_box[0]`, `height = media_box[3] - media_box[1]` and the corner
+`media_box_origin = (media_box[0], media_box[1])`; `to_dict` writes
+`[ox oy ox+width oy+height]` and the source `/CropBox` (own or inherited) when there is one;
+/Rotate is carried over verbatim, content streams are concatenated (each + `\n`), resource
+categories are merged into the writer's own `/Font` dictionary. -/
+def copyPage (s : Src) : Out :=
+  let ox := boxAt s.mediaBox 0
+  let oy := boxAt s.mediaBox 1
+  let width := boxAt s.mediaBox 2 - boxAt s.mediaBox 0
+  let height := boxAt s.mediaBox 3 - boxAt s.mediaBox 1
+  { mediaBox := [ox, oy, ox + width, oy + height],
+    cropBox := s.cropBox,
     rotation := s.rotation,
     res := sortKeys ("Font" :: (s.res.getD [])),
     content := joinStreams s.streams }
